@@ -236,6 +236,27 @@ example :
     (evalAll (ctxOf exampleExtractor ⟨1, 2, ascii "k:v"⟩) (exampleExtractor.ignore.getD [])).toOption = some [[]] := by
   decide +kernel
 
+/-- `IgnoreMatch` returns at the FIRST truthy result: a line whose first ignore expression is truthy is ignored
+    whatever the later expressions and the extract expression would do (they are not evaluated – not even when
+    they would panic).  Conversely an evaluation that does panic is not recovered anywhere in the pipeline
+    (`processLine = .error`: the worker goroutine's panic ends the process); `NoPanic` is property C08's. -/
+theorem ignore_first_truthy (e : Extractor) (l : Line) (st : Expr.Stage) (rest : List Expr.Stage) (r : Bytes)
+    (hm : (e.matcher l.text).length > 0) (hig : e.ignore = some (st :: rest))
+    (hr : evalStage (ctxOf e l) st = .ok r) (ht : Expr.truthy r = true) :
+    processLine e l = .ok .ignored := by
+  unfold processLine
+  simp only [hm, if_true, hig, ignoreMatch, List.length_cons, Nat.add_eq_zero_iff, Nat.succ_ne_self, and_false,
+    if_false, ignoreLoop, hr, ht]
+
+/-- Non-vacuity: first expression truthy on line 1, second one a look-up that panics (a slice beyond the line):
+    ignored; the same set in the other order panics. -/
+example :
+    let boom : Expr.Stage := Expr.Comp.panic "boom"
+    let first : Expr.Stage := Expr.Comp.getKey (ascii "line") fun v => .ret (if v = ascii "1" then ascii "1" else [])
+    (processLine { exampleExtractor with ignore := some [first, boom] } ⟨0, 1, ascii "k:v"⟩).toOption = some .ignored ∧
+    (processLine { exampleExtractor with ignore := some [boom, first] } ⟨0, 1, ascii "k:v"⟩).toOption = none := by
+  decide +kernel
+
 /-- What a worker computes as the line number of the `idx`-th line of a batch (`BatchStart + idx`) is the
     number the reference gives that line, for every batch size and timer behaviour, and the line is the
     `number`-th segment of its own source (C02's `lineNumber_true`, here for the lines of source `i`). -/
